@@ -111,6 +111,14 @@ package mailbox
 //@ func (*UnboundedMailbox).process
 //@   callspec LoadInt32 requires m.status == 0
 //@   callspec LoadUint32 requires m.status == 0
+// ... and it does look: between giving the token back for the last time and returning, process has read both counters
+// (sequentially that second look is dead code - nothing can arrive in between - which is exactly why it is demanded
+// here as an obligation of its own: it is the only thing that saves mail whose sender found the token taken)
+//@   ghostvar lsys bool
+//@   ghostvar lusr bool
+//@   callspec StoreUint32 sets lsys = false, lusr = false
+//@   callspec LoadInt32 sets lsys = (lsys || arg0 == &m.systemNum), lusr = (lusr || arg0 == &m.num)
+//@   ensures  lsys && lusr
 //@   requires mbwf(m) && counted(m)
 //@   modifies anyold, gmap(handled), gmap(handledn), m.status
 //@   ensures  mbwf(m) && counted(m) && m.status == 0
